@@ -39,9 +39,13 @@ def plan(tier, seed):
         specs.append(dict(kind='ops', sub=k,
                           count=6000 if tier == 'thorough' else 100,
                           hashseed=k))
+    for k in range(4 if tier == 'quick' else 32):
+        specs.append(dict(kind='ops', sub=1000 + k, wide=True,
+                          count=3 if tier == 'quick' else 25,
+                          hashseed=k))
     meta = dict(
         rule=RULE,
-        require=['conversions', 'converted_roots', 'integer_assignments',
+        require=['wide_mdd_managers', 'conversions', 'converted_roots', 'integer_assignments',
                  'mdd_op_results', 'mdd_collections', 'mdd_nodes_freed',
                  'mdd_canonicity_checks', 'complemented_roots'],
         assumptions=['integer variable of b bits has 2**b values',
@@ -310,6 +314,11 @@ def ops(ctx, spec):
     for it in range(spec['count']):
         nint = rng.randint(1, 3)
         sizes = [rng.choice((2, 2, 3, 4)) for _ in range(nint)]
+        if spec.get('wide'):
+            # managers of hundreds to thousands of MDD nodes
+            nint = rng.randint(4, 5)
+            sizes = [rng.choice((3, 4, 4, 5, 6)) for _ in range(nint)]
+            ctx.counters['wide_mdd_managers'] += 1
         levels = list(range(nint))
         rng.shuffle(levels)
         dvars = {f'I{i}': dict(level=l, len=s)
@@ -436,6 +445,7 @@ def ops_one(ctx, _m, rng, dvars, syms, info):
                                      missing=sorted(want - set(mdd._succ))))
             site = 'mdd.collect_garbage'
         check(site)
+    ctx.note('mdd_nodes_hundreds', len(mdd._succ) // 100)
     # release all: only the terminal remains
     for u, t in pool:
         mdd.decref(u)
